@@ -10,7 +10,9 @@ RULE = ("(a) every __call__ of the adaptive / implicit integrators inside seeded
         "proposal and verdict, Newton flag) and replayed bit for bit through the Lean accept/retry model; the property clauses about "
         "retries are evaluated on the recorded attempts; (b) tolerance sweeps 1e-3..1e-11 on linear systems with exact exponentials and "
         "nonlinear problems with closed forms, both directions, initial dt from 1e-4 to beyond the span: measured global error vs "
-        "(atol + rtol |y|) x amplification. non-trivial = call with >= 1 rejected attempt / run with >= 5 steps; distinct by configuration")
+        "(atol + rtol |y|) x amplification; (c) a late-feature family (smooth bump at the end of the span: the clipped last step of the call is "
+        "rejected and retried) and a multi-scale family (components of size 1e5 and 1e-3, atol = 1e-9 rtol), with the recorded times checked "
+        "against the steps the integrator reported. non-trivial = call with >= 1 rejected attempt / run with >= 5 steps; distinct by configuration")
 ASSUMPTIONS = ["the global-error clause is a measurement (numerical analysis), used for validation and as failing-input search",
                "amplification of a problem is estimated as max(1, exp(L |tf - t0|)) with L the logarithmic norm bound of the test problem"]
 
@@ -69,6 +71,50 @@ def problems(rng):
         e = np.exp(r * t)
         return y0 * e / (1.0 - y0 + y0 * e)
     return [("damped-rotation", lin, lin_exact, np.array([1.0, 0.5]), lam, om), ("logistic", logistic, logistic_exact, np.array([0.2, 0.7]), r, r)]
+
+
+def late_feature(rng, direction, wide=False):
+    """Prothero-Robinson type problem with a narrow smooth feature at the END of the span: the controller has grown the
+    step on the flat part, so the last (clipped) step of the call is usually rejected and retried.  Returns f, exact, y0, t0, tf."""
+    # (the 10th/12th-order pairs take steps several times the width of a narrow bump, where no embedded estimate is in its
+    # asymptotic regime: they get a feature ten times wider)
+    k = rng.uniform(200.0, 600.0) * (0.1 if wide else 1.0)
+    lam = -rng.uniform(0.5, 2.0)
+    c = 1.0
+    off = rng.uniform(0.05, 0.09)
+    t0, tf = (0.0, c - off) if direction > 0 else (2.0, c + off)
+
+    def g(t):
+        return math.exp(-k * (t - c) ** 2)
+
+    def f(t, y):
+        t = float(t)
+        return lam * (y - g(t)) - 2.0 * k * (t - c) * g(t)
+    y0 = np.array([0.5])
+
+    def exact(t):
+        return g(t) + (y0 - g(t0)) * math.exp(lam * (t - t0))
+    return f, exact, y0, t0, tf, abs(lam), dict(k=k, lam=lam)
+
+
+def multi_scale(rng, direction):
+    """decoupled components on very different scales: a large slow decay and a small fast rotation; the tolerance of a
+    component is atol + rtol |y_i| with atol << rtol |y_i|, so a controller that mixes the components' scales loses the small ones."""
+    big = 10.0 ** rng.uniform(3, 5)
+    small = 10.0 ** rng.uniform(-4, -2)
+    a = rng.uniform(0.05, 0.3)
+    om = rng.uniform(15.0, 40.0)
+    M = np.array([[-a, 0, 0], [0, 0, om], [0, -om, 0]])
+
+    def f(t, y):
+        return M @ y
+    y0 = np.array([big, small, 0.5 * small])
+
+    def exact(t):
+        c, s = math.cos(om * t), math.sin(om * t)
+        return np.array([big * math.exp(-a * t), c * y0[1] + s * y0[2], -s * y0[1] + c * y0[2]])
+    span = rng.uniform(1.0, 2.0)
+    return f, exact, y0, 0.0, direction * span, om, dict(a=a, om=om)
 
 
 def run(ctx):
@@ -138,6 +184,64 @@ def run(ctx):
                                                          ";".join("%s:%d:%d" % (fbits(a.get("ts", float("nan"))), int(a.get("redo", True)), int(a["ok"])) for a in atts)))
                         cases.append(c)
                     ctx.count("call:rejections=%d" % min(rej, 4))
+    # (c) late feature (last step of the call rejected) and components on very different scales
+    for name in (PAIRS_EXPLICIT[:3] if ctx.quick() else PAIRS_EXPLICIT):
+        cls = getattr(I, name)
+        for kind in ("late-feature", "multi-scale"):
+            for tol in ([1e-5, 1e-8] if ctx.quick() else [1e-4, 1e-6, 1e-8, 1e-10]):
+                for direction in (1, -1):
+                    f, exact, y0, t0, tf, L, par = late_feature(rng, direction, wide=name in ("RK108Solver", "RK1412Solver")) if kind == "late-feature" else multi_scale(rng, direction)
+                    atol = tol if kind == "late-feature" else tol * 1e-9
+                    dt0 = rng.choice([1e-2, 0.3]) if kind == "late-feature" else rng.choice([1e-4, 1e-2, 5.0])
+                    log = []
+                    ode = de.OdeSystem(f, y0=y0.copy(), t=(t0, tf), dt=dt0, rtol=tol, atol=atol)
+                    ode.set_method(make_logged(cls, log))
+                    inp = dict(kind=kind, method=name, tol=tol, atol=atol, t0=t0, tf=tf, dt0=dt0, y0=[float(v) for v in y0], **par)
+                    nb = [0]
+                    try:
+                        def cb(o, nb=nb):
+                            nb[0] += 1
+                            if nb[0] > 40000:
+                                raise loopsim.BudgetExceeded()
+                        ode.integrate(callback=cb)
+                    except loopsim.BudgetExceeded:
+                        ctx.count("budget-exceeded")
+                        continue
+                    except de.exception_types.FailedIntegration as e:
+                        ctx.oracle("adaptive-run-succeeds", False, dict(inp, cause=repr(e.__cause__)[:120]),
+                                   what="adaptive run on a smooth problem failed: %r" % (e.__cause__,))
+                        continue
+                    ts = [float(t) for t in ode.t]
+                    okc = [c for c in log if c["result"][0] == "ok"]
+                    # the recorded times are the sums of the steps the integrator actually took
+                    # (to rounding: storing the target itself for a step that reaches it would be equally right)
+                    same = len(okc) == len(ts) - 1 and all(abs(ts[i + 1] - (ts[i] + okc[i]["result"][2])) <= 4e-16 * max(abs(ts[i]), abs(ts[i + 1]), abs(tf)) for i in range(len(okc)))
+                    ctx.oracle("recorded-time-is-sum-of-taken-steps", same, dict(inp, steps=len(ts) - 1, calls=len(okc)),
+                               what="a recorded time differs from previous time + the step the integrator reported")
+                    ctx.oracle("run-reaches-target", abs(ts[-1] - tf) <= 8 * float(np.spacing(max(abs(tf), abs(t0)))), dict(inp, t_end=ts[-1]), what="run ended at %r, target %r" % (ts[-1], tf))
+                    ex = np.array([exact(t) for t in ts]).reshape(ode.y.shape)
+                    # |y_i| is the size of the component over the run (an oscillating component passes through zero)
+                    size = np.max(np.abs(ex), axis=0)
+                    err = float(np.max(np.abs(ode.y - ex) / (atol + tol * size)))
+                    # the rotation's phase error accumulates linearly in the number of periods; the decay damps errors
+                    bound = 100.0 * max(5.0, abs(tf - t0) * L)
+                    # mechanism of finding P22 (repaired in /repo a91c390; reported under its own key if it returns): the first call starts far too large, its rejected attempts stay in the controller's
+                    # memory (smoothed scale, error history entering with a negative exponent) and the first accepted step is tested
+                    # against a loosened tolerance; the error is then already present after the first recorded step
+                    errs_t = np.max(np.abs(ode.y - ex) / (atol + tol * size), axis=tuple(range(1, ode.y.ndim)))
+                    first_rej = len(okc[0]["attempts"]) - 1 if okc else 0
+                    key = "global-error-proportional-to-tolerance"
+                    if err > bound and first_rej >= 1 and len(errs_t) > 1 and float(errs_t[1]) >= 0.3 * err:
+                        key = "first-step-after-oversized-initial-dt-exceeds-tolerance"
+                    ctx.oracle("global-error-proportional-to-tolerance", err <= bound,
+                               dict(inp, scaled_error=err, bound=bound, steps=len(ts) - 1, first_call_rejections=first_rej, scaled_error_after_first_step=float(errs_t[1]) if len(errs_t) > 1 else None),
+                               key=key, what="%s: global error / (atol + rtol|y_i|) = %.3g exceeds %.0f" % (kind, err, bound))
+                    # a call whose request reached the target but which came back with a shorter (retried) step
+                    last_rej = len(okc) == len(ts) - 1 and any(ts[i] + c["h"] == tf and c["result"][2] != c["h"] for i, c in enumerate(okc))
+                    ctx.count("%s:last-step-rejected=%d" % (kind, int(last_rej)))
+                    ctx.count("%s:scaled-error-decade=%d" % (kind, int(math.floor(math.log10(max(err, 1e-9))))))
+                    if last_rej or kind == "multi-scale":
+                        ctx.nontrivial((kind, name, tol, direction, dt0))
     # unmeetable tolerances: a discontinuous right-hand side with an impossible tolerance must raise, and nothing is recorded for the step
     for name in PAIRS_EXPLICIT[:3]:
         cls = getattr(I, name)
